@@ -371,4 +371,24 @@ def main(run):
   except InfraError as e:
     print('INFRA-ERROR property=%s %s' % (a.pid, e), file=sys.stderr)
     sys.exit(2)
+  except Exception as e:  # pylint: disable=broad-except
+    # An exception nobody in the check expected.  If it was RAISED INSIDE the code under test
+    # (innermost frame under REPO/vizier), the harness could not drive the code the way the model says
+    # it can be driven: that is a broken correspondence (reported, with the traceback as the replay),
+    # not a tooling failure.  Anything else (harness bug, environment) stays an infrastructure error.
+    import traceback
+    tb = traceback.extract_tb(e.__traceback__)
+    inner = tb[-1].filename if tb else ''
+    in_repo = os.path.realpath(inner).startswith(os.path.realpath(os.path.join(REPO, 'vizier')) + os.sep)
+    text = ''.join(traceback.format_exception(type(e), e, e.__traceback__))
+    if not in_repo:
+      print(text, file=sys.stderr)
+      print('INFRA-ERROR property=%s unexpected %s in the harness' % (a.pid, type(e).__name__), file=sys.stderr)
+      sys.exit(2)
+    harness_frame = next((f for f in reversed(tb) if os.path.realpath(f.filename).startswith(os.path.realpath(VERIF))), None)
+    c.tie_break('harness could not drive the code under test: %s raised in %s:%d (called from %s:%s)' % (
+        type(e).__name__, os.path.relpath(inner, REPO), tb[-1].lineno,
+        os.path.relpath(harness_frame.filename, VERIF) if harness_frame else '?', harness_frame.lineno if harness_frame else '?'),
+                {'traceback': text[-3000:]}, '%s: %s' % (type(e).__name__, str(e)[:300]), 'no exception')
+    code = c.finish(level='proof', rule='aborted by an exception raised inside the code under test')
   sys.exit(code)
